@@ -613,7 +613,7 @@ def check_C13():
 
 def check_C16():
     ctx = Ctx("C16"); cov = {}
-    broken = proof_part(ctx, "props/C16.v", ["proofs/X_basic.v", "proofs/X_inv.v", "proofs/X_c13.v", "proofs/X_c16.v", "proofs/X_inst.v", "proofs/X_own.v", "proofs/X_chain.v", "proofs/X_c04.v", "proofs/X_lin.v", "proofs/X_resize.v", "proofs/X_read.v", "XMachine.v"], cov)
+    broken = proof_part(ctx, "props/C16.v", ["proofs/X_basic.v", "proofs/X_inv.v", "proofs/X_c13.v", "proofs/X_c16.v", "proofs/X_inst.v", "proofs/X_own.v", "proofs/X_chain.v", "proofs/X_c04.v", "proofs/X_lin.v", "proofs/X_resize.v", "proofs/X_read.v", "XMachine.v", "props/C03.v", "proofs/X_maps.v", "proofs/XS_read.v", "proofs/XS_rdinst.v", "XMachineS.v"], cov)
     solo_part(ctx, "C16", cov)
     def sel(b):
         sc, r, why = b
@@ -653,7 +653,7 @@ def check_C04():
 
 def check_C03():
     ctx = Ctx("C03"); cov = {}
-    broken = proof_part(ctx, "props/C03.v", ["proofs/C11_table.v", "proofs/C11_lists.v", "proofs/X_maps.v", "proofs/XS_inv.v", "TableModel.v", "XMachineS.v", "proofs/XS_lock.v", "proofs/XS_own.v", "proofs/XS_count.v", "proofs/XS_inst.v", "proofs/XS_cells.v", "proofs/XS_vis.v", "proofs/XS_abs.v", "proofs/XS_cinst.v", "proofs/XS_resize.v", "proofs/XS_rinst.v"], cov)
+    broken = proof_part(ctx, "props/C03.v", ["proofs/C11_table.v", "proofs/C11_lists.v", "proofs/X_maps.v", "proofs/XS_inv.v", "TableModel.v", "XMachineS.v", "proofs/XS_lock.v", "proofs/XS_own.v", "proofs/XS_count.v", "proofs/XS_inst.v", "proofs/XS_cells.v", "proofs/XS_vis.v", "proofs/XS_abs.v", "proofs/XS_cinst.v", "proofs/XS_resize.v", "proofs/XS_rinst.v", "proofs/XS_read.v", "proofs/XS_rdinst.v"], cov)
     n = N(ctx, 2000, 30000)
     from . import solo
     fam = solo.resize_families(ctx.tier, [("Map", None)])
